@@ -1,4 +1,567 @@
 #!/usr/bin/env python3
-"""Translator: regenerates coq/Gen/*.v from /repo/src (DESIGN.md 3.1).  Filled in by later stages."""
+"""Translator (DESIGN.md 3.1): regenerates the Gallina text of the comparison tables of src/range.rs,
+the sign tables of src/term.rs and the default bodies of src/version_set.rs from the CURRENT source.
+The generated definitions (coq/Gen/*.v) are proved equal to the hand-written model in
+coq/Proofs/GenEq.v, so an edit of a table entry breaks a proof obligation deterministically.
+
+Usage: translate.py <repo> <outdir>.  Exit status 1 (with a message) if the source no longer has the
+restricted shape this reader understands: that is a broken tie, never a silent skip.
+
+Supported Rust subset: `match (e1, e2) { pat => expr, ... }` (also on a single expression), patterns built
+from tuple patterns, constructor patterns `C(p)`, `_`, binders, or-patterns (top level and nested) and
+`if` guards; expressions built from paths, method calls, field access, `&`/`?`/`!`, comparison operators,
+`&&`, `if … { … } else { … }`, nested `match`, blocks, tuples and calls.  Pattern matching is compiled by
+enumerating the constructors of the scrutinee components (Bound: 3, Term: 2, Ordering: 3)."""
+import re
 import sys
-sys.exit(0)
+import os
+
+# ------------------------------------------------------------------------------ tokenizer
+TOK = re.compile(r"\s+|//[^\n]*|(?P<tok>=>|==|<=|>=|&&|\|\||::|\.\.|[A-Za-z_][A-Za-z0-9_]*|\d+|\"[^\"]*\"|.)", re.S)
+
+
+def tokenize(src):
+    out = []
+    for m in TOK.finditer(src):
+        if m.group("tok") is not None:
+            out.append(m.group("tok"))
+    return out
+
+
+class ParseError(Exception):
+    pass
+
+
+class P:
+    def __init__(self, toks):
+        self.t = toks
+        self.i = 0
+
+    def peek(self, k=0):
+        return self.t[self.i + k] if self.i + k < len(self.t) else None
+
+    def eat(self, tok=None):
+        x = self.peek()
+        if x is None or (tok is not None and x != tok):
+            raise ParseError("expected %r, got %r at %d: …%s…" % (tok, x, self.i, " ".join(self.t[max(0, self.i - 8):self.i + 8])))
+        self.i += 1
+        return x
+
+    # ---- patterns
+    def pattern(self):
+        alts = [self.pattern1()]
+        while self.peek() == "|":
+            self.eat()
+            alts.append(self.pattern1())
+        return alts[0] if len(alts) == 1 else ("or", alts)
+
+    def pattern1(self):
+        x = self.peek()
+        if x == "(":
+            self.eat()
+            items = []
+            while self.peek() != ")":
+                items.append(self.pattern())
+                if self.peek() == ",":
+                    self.eat()
+            self.eat(")")
+            return ("tuple", items)
+        if x == "&":
+            self.eat()
+            return self.pattern1()
+        if x == "_":
+            self.eat()
+            return ("wild",)
+        name = self.path()
+        if self.peek() == "(":
+            self.eat()
+            args = []
+            while self.peek() != ")":
+                args.append(self.pattern())
+                if self.peek() == ",":
+                    self.eat()
+            self.eat(")")
+            return ("ctor", name, args)
+        base = name.split("::")[-1]
+        if base in CTORS:
+            return ("ctor", name, [])
+        return ("var", name)
+
+    def path(self):
+        x = self.eat()
+        if not re.match(r"[A-Za-z_]", x):
+            raise ParseError("identifier expected, got %r" % x)
+        while self.peek() == "::":
+            self.eat()
+            if self.peek() == "<":     # turbofish, skipped
+                depth = 0
+                while True:
+                    y = self.eat()
+                    if y == "<":
+                        depth += 1
+                    elif y == ">":
+                        depth -= 1
+                        if depth == 0:
+                            break
+                self.eat("::")
+            x += "::" + self.eat()
+        return x
+
+    # ---- expressions (precedence: && < comparison < unary < postfix)
+    def expr(self):
+        l = self.cmp()
+        while self.peek() == "&&":
+            self.eat()
+            l = ("and", l, self.cmp())
+        return l
+
+    def cmp(self):
+        l = self.unary()
+        if self.peek() in ("<=", "<", ">", ">=", "=="):
+            op = self.eat()
+            l = ("cmp", op, l, self.unary())
+        return l
+
+    def unary(self):
+        if self.peek() == "&":
+            self.eat()
+            return self.unary()
+        if self.peek() == "!":
+            self.eat()
+            return ("not", self.unary())
+        return self.postfix()
+
+    def postfix(self):
+        e = self.atom()
+        while True:
+            x = self.peek()
+            if x == ".":
+                self.eat()
+                name = self.eat()
+                if self.peek() == "(":
+                    self.eat()
+                    args = []
+                    while self.peek() != ")":
+                        args.append(self.expr())
+                        if self.peek() == ",":
+                            self.eat()
+                    self.eat(")")
+                    e = ("method", name, e, args)
+                else:
+                    e = ("field", name, e)
+            elif x == "?":
+                self.eat()
+            else:
+                return e
+
+    def atom(self):
+        x = self.peek()
+        if x == "(":
+            self.eat()
+            items = []
+            while self.peek() != ")":
+                items.append(self.expr())
+                if self.peek() == ",":
+                    self.eat()
+            self.eat(")")
+            return items[0] if len(items) == 1 else ("tuple", items)
+        if x == "{":
+            self.eat()
+            e = self.expr()
+            self.eat("}")
+            return e
+        if x == "if":
+            self.eat()
+            c = self.expr()
+            self.eat("{")
+            a = self.expr()
+            self.eat("}")
+            self.eat("else")
+            self.eat("{")
+            b = self.expr()
+            self.eat("}")
+            return ("if", c, a, b)
+        if x == "match":
+            return self.match()
+        if x in ("true", "false"):
+            self.eat()
+            return ("bool", x)
+        name = self.path()
+        if self.peek() == "(":
+            self.eat()
+            args = []
+            while self.peek() != ")":
+                args.append(self.expr())
+                if self.peek() == ",":
+                    self.eat()
+            self.eat(")")
+            return ("call", name, args)
+        return ("path", name)
+
+    def match(self):
+        self.eat("match")
+        scrut = self.expr()
+        self.eat("{")
+        arms = []
+        while self.peek() != "}":
+            pat = self.pattern()
+            guard = None
+            if self.peek() == "if":
+                self.eat()
+                guard = self.expr()
+            self.eat("=>")
+            body = self.expr()
+            if self.peek() == ",":
+                self.eat()
+            arms.append((pat, guard, body))
+        self.eat("}")
+        return ("match", scrut, arms)
+
+
+CTORS = {"Included": "Incl", "Excluded": "Excl", "Unbounded": "Unb", "Positive": "Pos", "Negative": "Neg",
+         "Less": "Lt", "Equal": "Eq", "Greater": "Gt"}
+FAMILY = {"bound": [("Included", 1), ("Excluded", 1), ("Unbounded", 0)],
+          "term": [("Positive", 1), ("Negative", 1)],
+          "ordering": [("Less", 0), ("Equal", 0), ("Greater", 0)]}
+
+
+def family_of_pattern(p):
+    """which constructor family does a (component) pattern mention?"""
+    k = p[0]
+    if k == "ctor":
+        b = p[1].split("::")[-1]
+        for f, cs in FAMILY.items():
+            if b in [c for c, _ in cs]:
+                return f
+        raise ParseError("unknown constructor " + p[1])
+    if k == "or":
+        for a in p[1]:
+            f = family_of_pattern(a)
+            if f:
+                return f
+    return None
+
+
+def pmatch(p, val, env):
+    """val = (ctor, [payload var]) ; returns list of env extensions (first alternative that matches) or None"""
+    k = p[0]
+    if k == "wild":
+        return env
+    if k == "var":
+        e = dict(env)
+        e[p[1]] = val
+        return e
+    if k == "or":
+        for a in p[1]:
+            r = pmatch(a, val, env)
+            if r is not None:
+                return r
+        return None
+    if k == "ctor":
+        b = p[1].split("::")[-1]
+        if val[0] != "ctor" or val[1] != b:
+            return None
+        e = env
+        for sub, payload in zip(p[2], val[2]):
+            e = pmatch(sub, ("value", payload), e)
+            if e is None:
+                return None
+        return e
+    if k == "tuple":
+        if val[0] != "tuple":
+            return None
+        e = env
+        for sub, v in zip(p[1], val[1]):
+            e = pmatch(sub, v, e)
+            if e is None:
+                return None
+        return e
+    raise ParseError("pattern kind " + k)
+
+
+class Emit:
+    """translation of expressions to Gallina text under a naming environment"""
+
+    def __init__(self, names, ops):
+        self.names = names      # rust path / field expression text -> gallina text
+        self.ops = ops          # operator family: "version" | "vs" | "req"
+        self.fresh = 0
+
+    def val_text(self, v):
+        if v[0] == "value":
+            return v[1]
+        if v[0] == "ctor":
+            c = CTORS[v[1]]
+            return c if not v[2] else "(%s %s)" % (c, " ".join(v[2]))
+        raise ParseError("tuple value used as an expression")
+
+    def key(self, e):
+        k = e[0]
+        if k == "path":
+            return e[1]
+        if k == "field":
+            return self.key(e[2]) + "." + e[1]
+        if k == "method" and e[1] in ("as_ref", "clone", "cloned", "borrow", "start_bound", "end_bound") and not e[3]:
+            return self.key(e[2])
+        return None
+
+    def expr(self, e, env):
+        k = e[0]
+        key = self.key(e)
+        if key is not None:
+            if key in env:
+                return self.val_text(env[key])
+            if key in self.names:
+                return self.names[key]
+            b = key.split("::")[-1]
+            if b in CTORS:
+                return CTORS[b]
+            raise ParseError("unbound name %s" % key)
+        if k == "bool":
+            return e[1]
+        if k == "and":
+            return "(andb %s %s)" % (self.expr(e[1], env), self.expr(e[2], env))
+        if k == "not":
+            return "(negb %s)" % self.expr(e[1], env)
+        if k == "if":
+            return "(if %s then %s else %s)" % (self.expr(e[1], env), self.expr(e[2], env), self.expr(e[3], env))
+        if k == "cmp":
+            op, a, b = e[1], self.expr(e[2], env), self.expr(e[3], env)
+            if self.ops == "version":
+                return {"<=": "(vleb %s %s)" % (a, b), "<": "(vltb %s %s)" % (a, b), ">": "(vltb %s %s)" % (b, a),
+                        ">=": "(vleb %s %s)" % (b, a), "==": "(veqb %s %s)" % (a, b)}[op]
+            if op != "==":
+                raise ParseError("only == on version sets")
+            return ("(vs_eqb O %s %s)" if self.ops == "vs" else "(rq_eqb R %s %s)") % (a, b)
+        if k == "call":
+            b = e[1].split("::")[-1]
+            args = [self.expr(a, env) for a in e[2]]
+            if b in CTORS:
+                return "(%s %s)" % (CTORS[b], " ".join(args))
+            if e[1] in ("std::cmp::max", "cmp::max", "max"):
+                return "(vmax %s %s)" % tuple(args)
+            if b == "Some" and len(args) == 1:
+                return args[0]
+            if b == "empty" and not args:
+                return "(vs_empty O)" if self.ops == "vs" else "(rq_empty R)"
+            raise ParseError("unknown call " + e[1])
+        if k == "method":
+            recv = self.expr(e[2], env)
+            args = [self.expr(a, env) for a in e[3]]
+            if e[1] == "partial_cmp":
+                return "(V.compare %s %s)" % (recv, args[0])
+            if self.ops in ("vs", "req"):
+                pre = "vs_" if self.ops == "vs" else "rq_"
+                rec = "O" if self.ops == "vs" else "R"
+                if e[1] in ("intersection", "union", "is_disjoint", "subset_of", "contains"):
+                    return "(%s%s %s %s %s)" % (pre, e[1], rec, recv, args[0])
+                if e[1] == "complement":
+                    return "(%scomplement %s %s)" % (pre, rec, recv)
+            raise ParseError("unknown method " + e[1])
+        if k == "match":
+            return self.match(e, env)
+        raise ParseError("expression kind " + k)
+
+    def match(self, m, env):
+        scrut, arms = m[1], m[2]
+        first = arms[0][0]
+        first = first[1][0] if first[0] == "or" else first
+        pat_arity = len(first[1]) if first[0] == "tuple" else None
+        if scrut[0] == "tuple":
+            comps, is_tuple = scrut[1], True
+            texts = [self.expr(c, env) for c in comps]
+        elif pat_arity == 2:
+            # a pair-valued expression matched with pair patterns: project the components
+            t = self.expr(scrut, env)
+            comps, is_tuple = [None, None], True
+            texts = ["(fst %s)" % t, "(snd %s)" % t]
+        else:
+            comps, is_tuple = [scrut], False
+            texts = [self.expr(scrut, env)]
+        # family of each component from the patterns
+        fams = []
+        for ci in range(len(comps)):
+            fam = None
+            for (pat, _, _) in arms:
+                for alt in (pat[1] if pat[0] == "or" else [pat]):
+                    sub = alt[1][ci] if alt[0] == "tuple" else alt
+                    fam = fam or family_of_pattern(sub)
+            fams.append(fam)   # None: every pattern ignores this component, no case split
+
+        def build(ci, chosen):
+            if ci == len(comps):
+                val = ("tuple", chosen) if is_tuple else chosen[0]
+                return self.first_arm(arms, val, env)
+            if fams[ci] is None:
+                return build(ci + 1, chosen + [("value", texts[ci])])
+            branches = []
+            for (c, arity) in FAMILY[fams[ci]]:
+                vars_ = []
+                for _ in range(arity):
+                    self.fresh += 1
+                    vars_.append("x%d" % self.fresh)
+                body = build(ci + 1, chosen + [("ctor", c, vars_)])
+                branches.append("| %s => %s" % (" ".join([CTORS[c]] + vars_), body))
+            return "match %s with %s end" % (texts[ci], " ".join(branches))
+        return "(" + build(0, []) + ")"
+
+    def first_arm(self, arms, val, env):
+        for idx, (pat, guard, body) in enumerate(arms):
+            e = pmatch(pat, val, env)
+            if e is None:
+                continue
+            b = self.expr(body, e)
+            if guard is None:
+                return b
+            return "(if %s then %s else %s)" % (self.expr(guard, e), b, self.first_arm(arms[idx + 1:], val, env))
+        raise ParseError("non-exhaustive match")
+
+
+# ------------------------------------------------------------------------------ source extraction
+def fn_body(src, header_re):
+    m = re.search(header_re, src)
+    if not m:
+        raise ParseError("function not found: " + header_re)
+    i = src.index("{", m.end() - 1) if src[m.end() - 1] != "{" else m.end() - 1
+    depth = 0
+    for j in range(i, len(src)):
+        if src[j] == "{":
+            depth += 1
+        elif src[j] == "}":
+            depth -= 1
+            if depth == 0:
+                return src[i + 1:j]
+    raise ParseError("unbalanced braces")
+
+
+def match_at(src, anchor):
+    """parse the `match` expression starting at the first 'match' after [anchor]"""
+    i = src.index(anchor)
+    i = src.index("match", i)
+    p = P(tokenize(src[i:]))
+    return p.match()
+
+
+def parse_expr(src):
+    p = P(tokenize(src))
+    e = p.expr()
+    if p.peek() not in (None, ";"):
+        raise ParseError("trailing tokens: %r" % p.t[p.i:p.i + 6])
+    return e
+
+
+def main():
+    repo, out = sys.argv[1], sys.argv[2]
+    os.makedirs(out, exist_ok=True)
+    rng = open(os.path.join(repo, "src", "range.rs")).read()
+    trm = open(os.path.join(repo, "src", "term.rs")).read()
+    vst = open(os.path.join(repo, "src", "version_set.rs")).read()
+    # only the code before the tests
+    rng = rng.split("// TESTS #####")[0]
+    trm = trm.split("// TESTS #####")[0]
+    defs = []
+
+    def table(name, params, ret, src_text, anchor, names, ops="version"):
+        em = Emit(names, ops)
+        m = match_at(src_text, anchor)
+        defs.append("  Definition gen_%s %s : %s :=\n    %s." % (name, params, ret, em.match(m, {})))
+
+    # ---- range.rs
+    b = fn_body(rng, r"fn valid_segment<[^>]*>\([^)]*\)\s*->\s*bool\s*\{")
+    table("valid_segment", "(start end_ : bnd)", "bool", b, "match", {"start": "start", "end": "end_"})
+    b = fn_body(rng, r"fn end_before_start_with_gap<[^>]*>\([^)]*\)\s*->\s*bool\s*\{")
+    table("end_before_start_with_gap", "(end_ start : bnd)", "bool", b, "match", {"start": "start", "end": "end_"})
+    b = fn_body(rng, r"fn left_start_is_smaller<[^>]*>\([^)]*\)\s*->\s*bool\s*\{")
+    table("left_start_is_smaller", "(left right : bnd)", "bool", b, "match", {"left": "left", "right": "right"})
+    b = fn_body(rng, r"fn left_end_is_smaller<[^>]*>\([^)]*\)\s*->\s*bool\s*\{")
+    table("left_end_is_smaller", "(left right : bnd)", "bool", b, "match", {"left": "left", "right": "right"})
+    b = fn_body(rng, r"fn cmp_bounds_start<[^>]*>\([^)]*\)\s*->\s*Option<Ordering>\s*\{")
+    table("cmp_bounds_start", "(left right : bnd)", "comparison", b, "Some(match", {"left": "left", "right": "right"})
+    b = fn_body(rng, r"fn cmp_bounds_end<[^>]*>\([^)]*\)\s*->\s*Option<Ordering>\s*\{")
+    table("cmp_bounds_end", "(left right : bnd)", "comparison", b, "Some(match", {"left": "left", "right": "right"})
+    # within_bounds: the two boolean tables and the control flow around them
+    b = fn_body(rng, r"fn within_bounds<[^>]*>\([^)]*\)\s*->\s*Ordering\s*\{")
+    table("below_lower_bound", "(version : ver) (segment : seg)", "bool", b, "let below_lower_bound",
+          {"version": "version", "segment": "segment"})
+    table("below_upper_bound", "(version : ver) (segment : seg)", "bool", b, "let below_upper_bound",
+          {"version": "version", "segment": "segment"})
+    flow = re.sub(r"\s+", " ", re.sub(r"match segment \{.*?\};", "MATCH;", b, flags=re.S)).strip()
+    want = ("let below_lower_bound = MATCH; if below_lower_bound { return Ordering::Less; } "
+            "let below_upper_bound = MATCH; if below_upper_bound { return Ordering::Equal; } Ordering::Greater")
+    if flow != want:
+        raise ParseError("within_bounds: control flow changed: " + flow)
+    defs.append("  Definition gen_within_bounds (version : ver) (segment : seg) : comparison :=\n"
+                "    if gen_below_lower_bound version segment then Lt\n"
+                "    else if gen_below_upper_bound version segment then Eq else Gt.")
+    # union: the accumulator_end table; intersection: the start table
+    b = fn_body(rng, r"pub fn union\(&self, other: &Self\)\s*->\s*Self\s*\{")
+    table("acc_end", "(a s : bnd)", "bnd", b, "let accumulator_end",
+          {"accumulator_.1": "a", "smaller_interval.1": "s"})
+    b = fn_body(rng, r"pub fn intersection\(&self, other: &Self\)\s*->\s*Self\s*\{")
+    table("inter_start", "(left_start right_start : bnd)", "bnd", b, "let start = match",
+          {"left_start": "left_start", "right_start": "right_start"})
+
+    rtext = ("(* GENERATED by tools/translate.py from /repo/src/range.rs — do not edit, never committed *)\n"
+             "From Coq Require Import Orders.\nFrom PG Require Import Model.Text Model.Range.\n\n"
+             "Module GenRange (V : UsualOrderedTypeFull).\n  Module Import M := RangeM V.\n\n" +
+             "\n\n".join(defs) + "\n\nEnd GenRange.\n")
+    open(os.path.join(out, "RangeTables.v"), "w").write(rtext)
+
+    # ---- term.rs
+    defs.clear()
+    tnames = {"self": "t", "other": "u", "v": "v", "other_terms_intersection": "u"}
+
+    def term_fn(name, params, ret, header):
+        b = fn_body(trm, header)
+        em = Emit(tnames, "vs")
+        e = parse_expr(b.strip())
+        defs.append("  Definition gen_%s %s : %s :=\n    %s." % (name, params, ret, em.expr(e, {})))
+
+    term_fn("t_negate", "(t : term VS)", "term VS", r"pub\(crate\) fn negate\(&self\)\s*->\s*Self\s*\{")
+    term_fn("t_contains", "(t : term VS) (v : Vr)", "bool", r"pub\(crate\) fn contains\(&self, v: &VS::V\)\s*->\s*bool\s*\{")
+    term_fn("t_intersection", "(t u : term VS)", "term VS", r"pub\(crate\) fn intersection\(&self, other: &Self\)\s*->\s*Self\s*\{")
+    term_fn("t_is_disjoint", "(t u : term VS)", "bool", r"pub\(crate\) fn is_disjoint\(&self, other: &Self\)\s*->\s*bool\s*\{")
+    term_fn("t_union", "(t u : term VS)", "term VS", r"pub\(crate\) fn union\(&self, other: &Self\)\s*->\s*Self\s*\{")
+    term_fn("t_subset_of", "(t u : term VS)", "bool", r"pub\(crate\) fn subset_of\(&self, other: &Self\)\s*->\s*bool\s*\{")
+    # relation_with: control flow checked textually
+    b = re.sub(r"\s+", " ", fn_body(trm, r"pub\(crate\) fn relation_with\(&self, other_terms_intersection: &Self\)\s*->\s*Relation\s*\{")).strip()
+    want = ("if other_terms_intersection.subset_of(self) { Relation::Satisfied } else if "
+            "self.is_disjoint(other_terms_intersection) { Relation::Contradicted } else { Relation::Inconclusive }")
+    if b != want:
+        raise ParseError("relation_with: control flow changed: " + b)
+    defs.append("  Definition gen_t_relation_with (t u : term VS) : relation :=\n"
+                "    if gen_t_subset_of u t then Satisfied else if gen_t_is_disjoint t u then Contradicted else Inconclusive.")
+    ttext = ("(* GENERATED by tools/translate.py from /repo/src/term.rs — do not edit, never committed *)\n"
+             "From Coq Require Import Bool.\nFrom PG Require Import Model.VS Model.Term.\n\n"
+             "Section GenTerm.\n  Context {VS Vr : Type} (O : VSOps VS Vr).\n\n" +
+             "\n\n".join(defs) + "\n\nEnd GenTerm.\n")
+    open(os.path.join(out, "TermTables.v"), "w").write(ttext)
+
+    # ---- version_set.rs: the four provided methods
+    defs.clear()
+    vnames = {"self": "a", "other": "b"}
+
+    def vs_fn(name, params, ret, header):
+        b = fn_body(vst, header)
+        em = Emit(vnames, "req")
+        e = parse_expr(b.strip().replace("Self::empty()", "empty()"))
+        defs.append("  Definition gen_%s %s : %s :=\n    %s." % (name, params, ret, em.expr(e, {})))
+
+    vs_fn("full_default", "", "VS", r"fn full\(\)\s*->\s*Self\s*\{")
+    vs_fn("union_default", "(a b : VS)", "VS", r"fn union\(&self, other: &Self\)\s*->\s*Self\s*\{")
+    vs_fn("is_disjoint_default", "(a b : VS)", "bool", r"fn is_disjoint\(&self, other: &Self\)\s*->\s*bool\s*\{")
+    vs_fn("subset_of_default", "(a b : VS)", "bool", r"fn subset_of\(&self, other: &Self\)\s*->\s*bool\s*\{")
+    vtext = ("(* GENERATED by tools/translate.py from /repo/src/version_set.rs — do not edit, never committed *)\n"
+             "From PG Require Import Model.VS.\n\n"
+             "Section GenVS.\n  Context {VS Vr : Type} (R : VSReq VS Vr).\n\n" +
+             "\n\n".join(defs) + "\n\nEnd GenVS.\n")
+    open(os.path.join(out, "VSDefaults.v"), "w").write(vtext)
+    print("translate: wrote RangeTables.v TermTables.v VSDefaults.v")
+
+
+if __name__ == "__main__":
+    try:
+        main()
+    except (ParseError, ValueError, KeyError, IndexError) as e:
+        print("translate: the source no longer has the expected shape: %s: %s" % (type(e).__name__, e))
+        sys.exit(1)
